@@ -474,6 +474,34 @@ def run_op(env, ctx, op, path=()):
                 n = -1
             env.count('postprocess')
         return {'path': list(path), 'out': {'postprocessed': n}, 'fired': [], 'steps': 0, 'nested': []}
+    if kind == 'burst':
+        # a long-lived module: many ordinary calls before the calls that are judged (state that only builds up
+        # over hundreds of calls: profiles, counters, caches that fill).  Not pre-empted, not recorded one by one.
+        h = env.handles.get(op['mod'])
+        n_done = 0
+        if h is not None and h.ok:
+            sim = env.sim
+            cur = None
+            if sim is not None:
+                cur, sim.cur = sim.cur, None          # mute the step clock for the burst
+            try:
+                fn = entry_fn(h.module, 'parse')
+                texts = [fresh_text(t) for t in op['texts']]
+                with locks.sut():
+                    for i in range(int(op['n'])):
+                        try:
+                            fn(texts[i % len(texts)])
+                        except Exception:
+                            pass
+                        n_done += 1
+            except BaseException:
+                pass
+            finally:
+                if sim is not None:
+                    sim.cur = cur
+            env.count('burst')
+            env.count('calls_in_bursts', n_done)
+        return {'path': list(path), 'out': {'burst': n_done}, 'fired': [], 'steps': 0, 'nested': []}
     if kind == 'clock_jump':
         clock.jump(float(op.get('seconds', 1.0)))
         env.count('clock_jump')
